@@ -112,6 +112,7 @@ func genProf(rt *rapid.T) profCase {
 		add("pnear", w.From-nsMs-r64(rt, 0, 60000, "pnb")*nsMs, 1, w.From-nsMs)
 		add("pnear", w.To+nsMs+r64(rt, 0, 60000, "pna")*nsMs, w.To+nsMs, far)
 	}
+	c.Ver = genVer(rt)
 	return c
 }
 
